@@ -86,9 +86,13 @@ for rule in ('strict', 'middle', 'none'):
 
 # ------------------------------------------------------------------ C16.nthash / C12.hash
 NTF = ['src/ska_dict/nthash.rs::NtHashIterator::' + f for f in ('new', 'roll_fwd', 'curr_hash')]
+for k in range(5, 15, 2):
+    ob('C16.nthash.k%d' % k, ['C16', 'C12'], 'nthash/c16', 'nthash_k%d' % k, tier='quick' if k <= 7 else 'thorough', functions=NTF, sym='k+1 valid bases (all symbolic), strand mode',
+       oracle='roll = recompute; hash(w) = hash(revcomp(w)) with strands merged', bounds='k=%d, every window' % k, timeout=2400, mem_gb=10)
 for k in range(5, 64, 2):
-    ob('C16.nthash.k%d' % k, ['C16', 'C12'], 'nthash/c16', 'nthash_k%d' % k, tier='thorough', functions=NTF, sym='k+1 valid bases, strand mode', oracle='roll = recompute; hash(w) = hash(revcomp(w)) with strands merged',
-       bounds='k=%d' % k, timeout=1200, mem_gb=10, quick_sample={'family': 'nthash', 'pick': 3, 'always': k in (31, 63)})
+    ob('C16.nthash.slice.k%d' % k, ['C16', 'C12'], 'nthash/c16', 'nthash_slice_k%d' % k, tier='thorough', functions=NTF, sym='leaving base, entering base, one base at a symbolic position; background all-A or ACGT-repeat; strand mode',
+       oracle='roll = recompute; hash(w) = hash(revcomp(w)) with strands merged', bounds='k=%d, windows that differ from the background in <= 3 positions' % k, timeout=1200, mem_gb=10,
+       quick_sample={'family': 'nthash.slice', 'pick': 3, 'always': k in (31, 63)})
 # ------------------------------------------------------------------ C05.idx
 IDF = ['src/ska_ref/idx_check.rs::IdxCheck::new', 'src/ska_ref/idx_check.rs::IdxCheck::iter', 'src/ska_ref/idx_check.rs::IdxCheckIter::next']
 ob('C05.idx.3x4', ['C05'], 'idx_check/c05', 'idx_iter_3x4', functions=IDF, sym='3 contig lengths in 1..=4', oracle='i-th item = (contig, offset) of absolute index i; exactly sum(lengths) items then None',
@@ -120,3 +124,21 @@ for (nm, fn) in [('noconst', 'filter2_noconst_plain'), ('noconst.uk', 'filter2_n
        oracle='kept rows keep their order; k-mers (when updated), variants and counts stay row-aligned; removed count', bounds='2 rows x 3 samples, flags: ' + nm, timeout=2400, mem_gb=12)
 ob('C06.cnt', ['C06', 'C10'], 'merge_ska_array/filter', 'update_counts_2x3', functions=[MA + 'update_counts'], inst='u64', needs_parts=['merge_ska_array/common'], caps={'ACAP': 6, 'SCAP': 3, 'MCAP': 1}, models=['ndarray'],
    sym='2 rows x 3 symbols, stale counts, both counting modes', oracle='counts recomputed, empty rows removed, k-mers aligned', bounds='2x3', timeout=1200, mem_gb=10)
+
+# ------------------------------------------------------------------ C04 AlnWriter (inductive)
+AW = 'src/ska_ref/aln_writer.rs::AlnWriter::'
+for (nm, fn, tier, tmo) in [('h2.12', 'aln_step_h2_12', 'quick', 2400), ('h2.7_1_6', 'aln_step_h2_7_1_6', 'quick', 2400), ('h2.6_6', 'aln_step_h2_6_6', 'thorough', 3600), ('h2.5_2_5', 'aln_step_h2_5_2_5', 'thorough', 3600),
+                            ('h2.1_6_5', 'aln_step_h2_1_6_5', 'thorough', 3600), ('h2.4_4_4', 'aln_step_h2_4_4_4', 'thorough', 3600), ('h3.16', 'aln_step_h3_16', 'thorough', 7200), ('h3.7_3_7', 'aln_step_h3_7_3_7', 'thorough', 7200)]:
+    ob('C04.step.' + nm, ['C04'], 'aln_writer/step', fn, tier=tier, family='C04.step', functions=[AW + 'write_split_kmer', AW + 'fill_fwd_bases', AW + 'fill_contig'], needs_parts=['aln_writer/common'],
+       sym='entire writer state and ghost set M of written centres under assume(Inv); next centre valid and after all of M; base; mask flag; reference bases',
+       oracle='Inv(post, M + {(c,p)}); middle base buffered (masked iff ambiguous under mask) at its absolute position', bounds='contig layout ' + nm + ' (h = (k-1)/2)', timeout=tmo, mem_gb=12)
+for (nm, fn) in [('h2.5_2_5', 'aln_init_h2_5_2_5'), ('h3.14', 'aln_init_h3_14')]:
+    ob('C04.init.' + nm, ['C04'], 'aln_writer/step', fn, functions=[AW + 'new', AW + 'total_size'], needs_parts=['aln_writer/common'], sym='reference bases', oracle='Inv(new, {}) and output length = sum of contig lengths',
+       bounds='layout ' + nm, timeout=900, mem_gb=8)
+for (nm, fn, tier, tmo) in [('h2.5_2_5', 'aln_fin_h2_5_2_5', 'quick', 2400), ('h2.12', 'aln_fin_h2_12', 'thorough', 3600), ('h2.6_6', 'aln_fin_h2_6_6', 'thorough', 3600), ('h3.16', 'aln_fin_h3_16', 'thorough', 7200)]:
+    ob('C04.fin.' + nm, ['C04'], 'aln_writer/fin', fn, tier=tier, functions=[AW + 'finalise', AW + 'fill_contig', AW + 'fill_fwd_bases'], needs_parts=['aln_writer/common'],
+       sym='entire writer state under assume(Inv) with <= 2 centres; 2 symbolic repeat coordinates; reference bases', oracle='output = specification of the property (centre -> middle base; within h of a matched centre on the same contig -> reference base; else gap; N at non-gap repeat coordinates)',
+       bounds='layout ' + nm + ', <= 2 matched centres', timeout=tmo, mem_gb=12)
+for (nm, fn) in [('h2.10.two', 'aln_hist_h2_10_two'), ('h2.10.one_rep', 'aln_hist_h2_10_one_rep'), ('h2.6_5.two', 'aln_hist_h2_6_5_two')]:
+    ob('C04.hist.' + nm, ['C04'], 'aln_writer/hist', fn, tier='quick' if nm == 'h2.10.two' else 'thorough', family='C04.hist', functions=[AW + 'new', AW + 'write_split_kmer', AW + 'finalise'], needs_parts=['aln_writer/common'],
+       sym='reference bases, 1 or 2 centres in reference order, bases, mask flag, optional repeat coordinate', oracle='output = specification directly (no invariant involved)', bounds='layout ' + nm + ', <= 2 calls', timeout=2400, mem_gb=12)
